@@ -65,6 +65,43 @@ CHECKS['C20'] = {
     'technique': 'unsequenced read/consume detection over AST, recursive default-initialisation analysis in the extractor, compile matrix, body pattern rules',
 }
 
+CHECKS['C02'] = {
+    'text': 'Re-entrancy mechanism of the callback list on every path of every instantiation and both operator() variants: a node obtained from a '
+            'handle is used as a list member (link edit, link walk, success result) only after `counter != removed` was established under the list '
+            'mutex; no library mutex is held where a stored callable runs; the traversal cursor is an owning shared_ptr by value advanced only to its '
+            'own next exactly once per iteration; removal marks the node on every path and never rewrites its own links; Node::counter has only the '
+            'sanctioned writers; new nodes draw their generation from getNextCounter and the traversal visits exactly live nodes with generation <= '
+            'the generation captured once before the loop.',
+    'note': COMMON_NOTE + 'Not decided: memory safety in general; the final list content beyond the per-operation invariant.',
+    'technique': 'typestate (removed mark) with dominance + lockset, traversal-idiom recognition over clang CFG, who-may-write rules',
+}
+CHECKS['C09'] = {
+    'text': 'Static fault-point enumeration: every call site that may throw (allocation, user callable, user copy/compare; through library callees '
+            'by bottom-up summaries) is classified against the commit point of each strong-guarantee operation (list/dispatcher/heterogeneous '
+            'listener management, remover utilities, enqueue, peekEvent, copy assignment): no fault point reachable after the first observable write; '
+            'noexcept functions and destructors reach no fault point; mutexes only through scope objects; traversal/dispatch write no container state; '
+            'delegating copy constructor and copy-and-swap assignment; placement-new before destructor publication. Six known findings (K1).',
+    'note': COMMON_NOTE + 'Not decided: behaviour of user types during unwinding; standard-library internals beyond the frozen effect table; the CFG has no exception edges (exceptions are handled by these rules only).',
+    'technique': 'call-graph effect summaries (may-allocate / may-run-user-code), commit-point reachability over clang CFG, noexcept effect rule',
+}
+CHECKS['C14'] = {
+    'text': 'First-match prototype selection compared with an independent standard-traits oracle over generated families (1600 quick / 11600 thorough '
+            'static_asserts, g++ and clang++) plus compile-fail witnesses; in doProcessIf the typed view of a slot is dominated by the tag test for the '
+            'very PrototypeInfo whose ArgsTuple it uses and the slot is never copied out; doEnqueue stores type, tag and dispatcher of one PrototypeInfo '
+            'and doDispatchItem casts to that type; every placement-new fits its buffer (layout facts); handle index and list slot agree; '
+            'no use-after-move on the heterogeneous paths (two known findings, K2).',
+    'note': COMMON_NOTE + 'Not decided: overload subtleties beyond the generated families; alignment of over-aligned payloads.',
+    'technique': 'generated static_assert families vs independent oracle, dominance of tag test over typed view, template-argument/enumerator agreement from class facts, use-after-move',
+}
+CHECKS['C15'] = {
+    'text': 'Typestate of ScopedRemover (both specialisations) on every path: reset() dominates every overwrite of the record or target outside '
+            'constructors; the destructor resets on every path; reset walks the whole record calling the target\'s remove, then clears; each add function '
+            'records the handle returned by the matching add call under the record mutex on every normal path and returns it; remove erases the record '
+            'first and detaches only what was recorded; move construction and swap transfer/exchange both fields.',
+    'note': COMMON_NOTE + 'Not decided: histories as such (follow from the per-method invariant recorded >= attached-through-me).',
+    'technique': 'dominance/post-dominance rules over clang CFG, def-use of the returned handle, field-completeness from class facts',
+}
+
 NOT_APPLICABLE = {
 }
 for _i in range(1, 21):
